@@ -91,7 +91,7 @@ func (c05) Cases(tier string, seed int64, kf *KnownFindings) []Case {
 
 var c05bigPos = []int{41, 64, 100, 254, 255, 256, 257, 271, 272, 511, 512, 513, 1023, 1024, 1025}
 
-var extraKinds = []string{"int", "string", "chunked-string", "list", "map", "object", "ref", "null", "double", "binary", "long", "date", "typed-list", "bool", "double2", "double3", "double9", "double1", "long2", "long3", "int5", "utf8-string", "utf8-medium", "long5", "long5neg"}
+var extraKinds = []string{"int", "string", "chunked-string", "list", "map", "object", "ref", "null", "double", "binary", "long", "date", "typed-list", "bool", "double2", "double3", "double9", "double1", "long2", "long3", "int5", "utf8-string", "utf8-medium", "long5", "long5neg", "unknown-class-object", "unknown-type-list", "unknown-type-map", "unknown-class-in-list"}
 
 type c05spec struct {
 	goType   reflect.Type
@@ -245,6 +245,17 @@ func (sp *c05spec) build() (stream []byte, reads int, pickLast bool, expect inte
 			av = hspec.Bool(true)
 		case "date":
 			av = hspec.Date(1500000000123)
+		case "unknown-class-object":
+			// the receiver has neither the field nor the class of its value (a newer sender)
+			av = hspec.Object("newer.Added", []string{"x", "y"}, hspec.Int(5), hspec.List("", hspec.String("in")))
+		case "unknown-class-in-list":
+			o := hspec.Object("newer.Added", []string{"x"}, hspec.Int(6))
+			av = hspec.List("", o, hspec.Int(1), o)
+		case "unknown-type-list":
+			av = hspec.List("[newer.Added", hspec.Int(1), hspec.Int(2))
+		case "unknown-type-map":
+			av = hspec.Map("newer.Props", hspec.String("k"), hspec.Int(1))
+			av.MapTyped = true
 		case "utf8-string":
 			av = hspec.String("é世😀 x")
 		case "utf8-medium":
